@@ -47,7 +47,7 @@ pub fn run(out: &RunOut, p: &str, tol: u128) -> MonOut {
             }
         }
         let sys_id = l.presets.get(l.system_idx).map(|a| a.id.clone()).unwrap_or_default();
-        let (checks, _) = seg::checks(h, l);
+        let (checks, reboot_waits) = seg::checks(h, l);
         // ---- R3: waited-for-reboot report at the start of this life
         let start_wall: Option<i128> = (l.start..l.end).find_map(|i| match &h[i].kind {
             Kind::ClockRead { which, wall, .. } if which == "mono" => Some(*wall),
@@ -56,7 +56,6 @@ pub fn run(out: &RunOut, p: &str, tol: u128) -> MonOut {
         let reports: Vec<(usize, u128)> = (l.start..l.end)
             .filter_map(|i| if let Kind::Metric(MetricRec::WaitedForRebootDuration(d)) = &h[i].kind { Some((i, *d)) } else { None })
             .collect();
-        let first_next = (l.start..l.end).find(|i| matches!(h[*i].kind, Kind::Policy(PolicyRec::ComputeNext { .. })));
         let mut clear_pending = false;
         match &mut pending {
             _ if pending_unknown => {}
@@ -64,46 +63,100 @@ pub fn run(out: &RunOut, p: &str, tol: u128) -> MonOut {
                 let on_target = pd.target.as_deref() == Some(l.os_version.as_str());
                 m.sig(format!("restart|on_target={on_target}|uncertain={}|reports={}", pd.uncertain, reports.len()));
                 if on_target {
-                    if let Some(sw) = start_wall {
-                        let consistent = sw >= (pd.finish_wall / 1000) * 1000;
+                    // The machine tries at the top of every trip round its main loop (right before it
+                    // asks the policy for the next check time) until the report succeeds: it needs a
+                    // wall clock at or past the recorded finish time and reports
+                    // (wall now - finish) - (monotonic now - monotonic at the machine's start).
+                    // Which clock reading of a trip is the loop-top one is not visible from outside, so
+                    // a report must match SOME reading of its trip, and a trip without a report is a
+                    // violation only if EVERY reading of that trip allowed one.
+                    let start_mono: Option<i64> = (l.start..l.end).find_map(|i| match &h[i].kind {
+                        Kind::ClockRead { which, mono, .. } if which == "mono" => Some(*mono),
+                        _ => None,
+                    });
+                    if let (Some(_sw), Some(sm)) = (start_wall, start_mono) {
                         m.count("R3.restarts_on_target_version");
-                        if consistent && first_next.is_none() {
-                            // the life was cut before its first wait: a report made here still counts
-                            pd.reports += reports.len() as u32;
-                        }
-                        if consistent && first_next.is_some() {
-                            // exactly one report, before the first wait, with the right duration
-                            let early: Vec<&(usize, u128)> = reports.iter().filter(|(i, _)| Some(*i) < first_next).collect();
-                            if early.is_empty() && !pd.uncertain {
-                                m.viol(p, "R3", format!("L{}", l.life), format!("the machine started on the target version {:?} after a finished install but reported no waited-for-reboot duration", pd.target));
+                        let fin = (pd.finish_wall / 1000) * 1000;
+                        let f = |wall: i128, mono: i64| -> Option<u128> {
+                            let dw = wall - fin;
+                            let dm = mono as i128 - sm as i128;
+                            if dw < 0 || dm < 0 || dw < dm {
+                                None
+                            } else {
+                                Some((dw - dm) as u128)
                             }
-                            for (i, d) in &early {
-                                let want = (sw - (pd.finish_wall / 1000) * 1000).max(0) as u128;
-                                let diff = if *d > want { *d - want } else { want - *d };
-                                if diff > tol {
-                                    m.viol(p, "R3", format!("L{}@{}", l.life, i), format!("waited-for-reboot duration {} ns, expected finish -> start of this machine = {} ns", d, want));
+                        };
+                        // (the reboot wait asks the policy for the next time as well: not a trip of the main loop)
+                        let nexts: Vec<usize> = (l.start..l.end)
+                            .filter(|i| matches!(h[*i].kind, Kind::Policy(PolicyRec::ComputeNext { .. })) && !reboot_waits.iter().any(|rw| rw.start <= *i && *i < rw.end))
+                            .collect();
+                        let mut lo = l.start;
+                        let mut reported_here = 0u32;
+                        let mut windows: Vec<(usize, usize, bool)> = nexts.iter().map(|j| (0, *j, true)).collect();
+                        for w in windows.iter_mut() {
+                            w.0 = lo;
+                            lo = w.1;
+                        }
+                        // the tail after the last policy question (a life cut there): reports count, absence is not judged
+                        windows.push((lo, l.end, false));
+                        for (k, (a, b, complete)) in windows.iter().enumerate() {
+                            let in_win: Vec<&(usize, u128)> = reports.iter().filter(|(i, _)| *i > *a && *i < *b).collect();
+                            let upto = in_win.first().map(|r| r.0).unwrap_or(*b);
+                            let reads: Vec<(i128, i64)> = (*a..upto).filter_map(|i| match &h[i].kind {
+                                Kind::ClockRead { which, wall, mono } if which == "both" => Some((*wall, *mono)),
+                                _ => None,
+                            }).collect();
+                            if reported_here + pd.reports > 0 && in_win.is_empty() {
+                                continue;
+                            }
+                            for (n, (i, d)) in in_win.iter().enumerate() {
+                                if reported_here > 0 || n > 0 {
+                                    m.viol(p, "R3", format!("L{}@{}", l.life, i), "waited-for-reboot duration reported more than once in one lifetime".to_string());
+                                    continue;
+                                }
+                                m.count("R3.reports_checked");
+                                if k > 0 {
+                                    m.count("R3.reports_on_a_later_trip");
+                                }
+                                let wants: Vec<u128> = reads.iter().filter_map(|(w, mo)| f(*w, *mo)).collect();
+                                if wants.is_empty() {
+                                    m.viol(p, "R3", format!("L{}", l.life), "waited-for-reboot duration reported although the finish time is later than now".to_string());
+                                } else if !wants.iter().any(|want| (if *d > *want { *d - *want } else { *want - *d }) <= tol) {
+                                    m.viol(p, "R3", format!("L{}@{}", l.life, i), format!("waited-for-reboot duration {} ns, expected finish -> start of this machine = {} ns", d, wants[0]));
                                 }
                             }
-                            if reports.len() > 1 {
-                                m.viol(p, "R3", format!("L{}@{}", l.life, reports[1].0), "waited-for-reboot duration reported more than once in one lifetime".to_string());
+                            if in_win.is_empty() && *complete && reported_here == 0 && pd.reports == 0 && !pd.uncertain {
+                                if !reads.is_empty() && reads.iter().all(|(w, mo)| f(*w, *mo).is_some()) {
+                                    if k == 0 {
+                                        m.viol(p, "R3", format!("L{}", l.life), format!("the machine started on the target version {:?} after a finished install but reported no waited-for-reboot duration", pd.target));
+                                    } else {
+                                        m.viol(p, "R3", format!("L{}", l.life), format!("the clocks allowed the waited-for-reboot report on trip {} of the main loop but it was not retried", k + 1));
+                                    }
+                                    // one alarm per lifetime
+                                    reported_here += 1;
+                                } else if k > 0 {
+                                    m.count("R3.trips_where_the_report_was_not_possible");
+                                }
                             }
-                            pd.reports += reports.len() as u32;
-                            if pd.reports > 1 {
-                                // reported in an earlier lifetime already
-                                let prev_cut = lives[..li].iter().rev().find(|x| x.started).map(|x| x.end_why.clone()).unwrap_or_default();
-                                m.viol(
-                                    p,
-                                    "R3",
-                                    format!("double-report-after-{}-between-report-and-clear", prev_cut),
-                                    "waited-for-reboot duration reported again by a later lifetime (the record was not cleared)".to_string(),
-                                );
-                            }
-                        } else if !consistent && !reports.is_empty() {
-                            m.viol(p, "R3", format!("L{}", l.life), "waited-for-reboot duration reported although the finish time is later than now".to_string());
+                            reported_here += in_win.len() as u32;
                         }
-                        // cleared once reported and the life went on to its first wait
-                        if !reports.is_empty() && first_next.is_some() {
-                            clear_pending = true;
+                        let had = pd.reports;
+                        pd.reports += reports.len() as u32;
+                        if had > 0 && !reports.is_empty() {
+                            // reported in an earlier lifetime already
+                            let prev_cut = lives[..li].iter().rev().find(|x| x.started).map(|x| x.end_why.clone()).unwrap_or_default();
+                            m.viol(
+                                p,
+                                "R3",
+                                format!("double-report-after-{}-between-report-and-clear", prev_cut),
+                                "waited-for-reboot duration reported again by a later lifetime (the record was not cleared)".to_string(),
+                            );
+                        }
+                        // cleared once reported and the life went on to its next policy question
+                        if let Some((ri, _)) = reports.first() {
+                            if nexts.iter().any(|j| j > ri) {
+                                clear_pending = true;
+                            }
                         }
                     }
                 } else {
@@ -137,8 +190,15 @@ pub fn run(out: &RunOut, p: &str, tol: u128) -> MonOut {
             let mut reboot_q = false;
             let mut offered: Vec<String> = vec![];
             let mut sys_target: Option<Option<String>> = None; // Some(None): system app offered without version
+            // a failed write of the first-seen time (partial storage fault) must be followed by the
+            // removal of the plan id written just before it, or the next attempt of this plan would
+            // inherit whatever first-seen time is still on storage
+            let mut fs_write_failed: Option<usize> = None;
+            let mut rolled_back = false;
             for i in c.start..c.end {
                 match &h[i].kind {
+                    Kind::Disk { op: DiskOp::Set(_), key, ok: false, .. } if key == "update_first_seen_time" => fs_write_failed = Some(i),
+                    Kind::Disk { op: DiskOp::Remove, key, ok: true, .. } if key == "install_plan_id" && fs_write_failed.is_some() => rolled_back = true,
                     Kind::Installer(InstallerRec::CreatePlan { result: Ok(id), response, offered: off, .. }) => {
                         plan = Some(id.clone());
                         offered = off.clone();
@@ -181,10 +241,22 @@ pub fn run(out: &RunOut, p: &str, tol: u128) -> MonOut {
                     continue;
                 }
             }
+            let forget_record = if let Some(i) = fs_write_failed {
+                m.count("R1.first_seen_write_failed");
+                if perform && !rolled_back {
+                    m.viol(p, "R1", format!("L{}@{}", c.life, i), format!("the first-seen time of plan {plan} could not be written but the plan id written before it was left on storage"));
+                }
+                true
+            } else {
+                false
+            };
             let results = match &done {
                 Some(r) => r.clone(),
                 None => {
                     // attempt cut (crash): bookkeeping of this attempt may or may not have been recorded
+                    if forget_record {
+                        first_seen = None;
+                    }
                     continue;
                 }
             };
@@ -221,6 +293,10 @@ pub fn run(out: &RunOut, p: &str, tol: u128) -> MonOut {
                 }
             } else if !fs_metric.is_empty() {
                 m.viol(p, "R1", &site, "first-seen-to-success duration reported for an install with a failed app".to_string());
+            }
+            if forget_record {
+                // rolled back: no plan is on record for the next attempt
+                first_seen = None;
             }
             // R2: attempts to successful install (completed checks only)
             if c.complete {
